@@ -133,6 +133,8 @@ struct Fault {
     what: String,
     /// ground-truth items of the undamaged document the fault was applied to
     want: Vec<(NItem, usize)>,
+    /// layout of the faulted encoding (oversize faults only)
+    lay: Vec<Lay>,
 }
 
 fn nth_node_mut<'a>(doc: &'a mut [Node], n: usize) -> &'a mut Node {
@@ -195,7 +197,7 @@ fn faults_for(rs: &RefSpec, doc: &Vec<Node>, only_oversized: bool) -> Vec<Fault>
             let mut b = bytes0.clone();
             let nid = unknown_id_of_len(idlen);
             b[l.tag_start..l.tag_start + idlen].copy_from_slice(&id_bytes(nid));
-            out.push(Fault { class: Class::Id, bytes: b, prefix, pos: l.tag_start, id: nid, size: None, what: format!("id of node {} replaced by unknown {:x}", li, nid), want: flat0.clone() });
+            out.push(Fault { class: Class::Id, bytes: b, prefix, pos: l.tag_start, id: nid, size: None, what: format!("id of node {} replaced by unknown {:x}", li, nid), want: flat0.clone(), lay: vec![] });
         }
         // (2) a specification id of the same length and kind that is not allowed here (not for the first element, which is trusted)
         let first_non_global = lay0.iter().position(|x| !rs.is_global(x.id)).unwrap_or(usize::MAX);
@@ -204,7 +206,7 @@ fn faults_for(rs: &RefSpec, doc: &Vec<Node>, only_oversized: bool) -> Vec<Fault>
             if let Some(c) = rs.elems.iter().find(|e| id_bytes(e.id).len() == idlen && same_kind(e) && !rs.is_global(e.id) && !rs.allowed(e.id, &chain) && !chain_has_unknown_closable(rs, doc, &lay0, li, e.id)) {
                 let mut b = bytes0.clone();
                 b[l.tag_start..l.tag_start + idlen].copy_from_slice(&id_bytes(c.id));
-                out.push(Fault { class: Class::Hier, bytes: b, prefix, pos: l.tag_start, id: c.id, size: None, what: format!("id of node {} replaced by {} (not allowed under {:x?})", li, c.name, chain), want: flat0.clone() });
+                out.push(Fault { class: Class::Hier, bytes: b, prefix, pos: l.tag_start, id: c.id, size: None, what: format!("id of node {} replaced by {} (not allowed under {:x?})", li, c.name, chain), want: flat0.clone(), lay: vec![] });
             }
         }
     }
@@ -240,7 +242,7 @@ fn faults_for(rs: &RefSpec, doc: &Vec<Node>, only_oversized: bool) -> Vec<Fault>
         while prefix > 0 && fex[prefix - 1].0.is_end() && lay[fex[prefix - 1].2].unknown {
             prefix -= 1;
         }
-        out.push(Fault { class: Class::Oversized, bytes: b, prefix, pos: l.tag_start, id: l.id, size: Some(bumped), what: format!("size of node {} bumped to {} (parent ends {} bytes earlier)", li, bumped, 1), want: flatten(&d2, &lay) });
+        out.push(Fault { class: Class::Oversized, bytes: b, prefix, pos: l.tag_start, id: l.id, size: Some(bumped), what: format!("size of node {} bumped to {} (parent ends {} bytes earlier)", li, bumped, 1), want: flatten(&d2, &lay), lay: lay.clone() });
     }
     out
 }
@@ -306,14 +308,125 @@ fn check_fault(ctx: &mut Ctx, rs: &RefSpec, doc: &Vec<Node>, f: &Fault, want_ite
     }
 }
 
+/// An oversize fault BEHIND a run of junk that is recovered from: try_recover() stretches the open known-size masters
+/// by exactly the skipped bytes, so a child that overran its ancestor before still does and must still be reported
+/// at its (shifted) position — whatever the buffer went through before the recovery (capacity 16, 1-byte reads).
+fn fault_behind_a_recovery(ctx: &mut Ctx, rs: &RefSpec, doc: &Vec<Node>, f: &Fault) {
+    let lay = &f.lay;
+    for (li, l) in lay.iter().enumerate() {
+        let b = l.tag_start;
+        if b >= f.pos {
+            break;
+        }
+        let enclosing: Vec<&Lay> = lay.iter().filter(|k| k.is_master && !k.unknown && k.data_start <= b && b < k.end).collect();
+        let fi = {
+            let mut seen = 0;
+            let mut r = 0;
+            for (k, (it, _)) in f.want.iter().enumerate() {
+                if !it.is_end() {
+                    if seen == li {
+                        r = k;
+                        break;
+                    }
+                    seen += 1;
+                }
+            }
+            r
+        };
+        if fi > f.prefix {
+            continue;
+        }
+        for junk in [vec![0x00u8], vec![0x00, 0x02, 0x05], vec![0x05; 17]] {
+            let j = junk.len();
+            if !enclosing.iter().all(|k| l.end + j <= k.end) {
+                continue;
+            }
+            let mut input = Vec::with_capacity(f.bytes.len() + j);
+            input.extend_from_slice(&f.bytes[..b]);
+            input.extend_from_slice(&junk);
+            input.extend_from_slice(&f.bytes[b..]);
+            let shift = |v: &[(NItem, usize)]| -> Vec<(NItem, usize)> { v.iter().map(|(it, o)| (it.clone(), if *o >= b { *o + j } else { *o })).collect() };
+            let want_before = f.want[..fi].to_vec();
+            let want_between = shift(&f.want[fi..f.prefix]);
+            for cap in [None, Some(16usize)] {
+                for one_byte_reads in [false, true] {
+                    let cfg = Cfg { allow: 0, buffered: vec![], cap, max_size: MaxSize::Limit(1 << 16), eof_end: true };
+                    let steps: Vec<crate::obs::Step> = if one_byte_reads { vec![crate::obs::Step::Max(1); input.len() + 2] } else { vec![] };
+                    let d = || format!("doc=[{}] fault: {} behind junk {} inserted at {} input={} {} {}", docs::doc_short(rs, doc), f.what, hex(&junk), b, hex(&input), cfg.short(), if one_byte_reads { "1-byte reads" } else { "whole reads" });
+                    if !ctx.enter(&d) {
+                        continue;
+                    }
+                    ctx.nontrivial();
+                    ctx.count("fault_behind_a_recovery", 1);
+                    let mut it: ebml_iterable::TagIterator<crate::obs::Script, V> = crate::obs::make_iter(crate::obs::Script::new(&input, &steps), &cfg);
+                    let mut log: Vec<String> = Vec::new();
+                    let mut before = Vec::new();
+                    let mut between = Vec::new();
+                    let mut verdict: Option<(&str, String)> = None;
+                    let mut phase = 0;
+                    for _ in 0..(2 * input.len() + 16) {
+                        ctx.transitions += 1;
+                        match crate::obs::step_next(&mut it) {
+                            Err(p) => {
+                                verdict = Some(("recovery-then-fault/panic", p));
+                                break;
+                            }
+                            Ok(None) => {
+                                log.push("None".into());
+                                verdict = Some(("recovery-then-fault/fault-not-reported", "the parse ended without reporting the oversized child".into()));
+                                break;
+                            }
+                            Ok(Some(Ok(x))) => {
+                                log.push(format!("{}@{}", x.0.short(), x.1));
+                                if phase == 0 { before.push(x) } else { between.push(x) }
+                            }
+                            Ok(Some(Err(e))) => {
+                                log.push(format!("Err({})", e.short()));
+                                if phase == 0 {
+                                    phase = 1;
+                                    match std::panic::catch_unwind(std::panic::AssertUnwindSafe(|| it.try_recover())) {
+                                        Err(p) => {
+                                            verdict = Some(("recovery-then-fault/panic", crate::obs::panic_msg(p)));
+                                            break;
+                                        }
+                                        Ok(Err(e)) => {
+                                            verdict = Some(("recovery-then-fault/recovery-failed", crate::obs::norm_err(&e).short()));
+                                            break;
+                                        }
+                                        Ok(Ok(())) => log.push("recover:Ok".into()),
+                                    }
+                                } else {
+                                    let ok = matches!(&e, NErr::OversizedChild { pos, id, size } if *pos == f.pos + j && *id == f.id && Some(*size) == f.size);
+                                    if !ok {
+                                        verdict = Some(("recovery-then-fault/not-reported-with-its-kind-and-position", format!("expected OversizedChild at {} for id {:x}", f.pos + j, f.id)));
+                                    }
+                                    break;
+                                }
+                            }
+                        }
+                    }
+                    if verdict.is_none() && (before != want_before || between != want_between) {
+                        verdict = Some(("recovery-then-fault/items-differ", format!("expected [{}] error [{}]", want_before.iter().map(|(i, o)| format!("{}@{}", i.short(), o)).collect::<Vec<_>>().join(" "), want_between.iter().map(|(i, o)| format!("{}@{}", i.short(), o)).collect::<Vec<_>>().join(" "))));
+                    }
+                    if let Some((k, det)) = verdict {
+                        ctx.violation(k, &d, &format!("{} | calls: {}", det, log.join(" ")));
+                    }
+                    ctx.validated += 1;
+                    ctx.leave();
+                }
+            }
+        }
+    }
+}
+
 pub fn run(ctx: &mut Ctx) {
     let rs = v_refspec();
     crate::spec::assert_spec_matches::<V>(&rs);
     let n = ctx.tier.pick(5, 6);
-    ctx.meta("rule", "cases: (input, tolerance subset, size limit). (a) every known-size document of T∘E with one injected fault of each class at every element (unknown id of the same length; specification id of the same length/kind not allowed there; size bumped one byte past the parent's end; declared size above the limit at root level; the oversize fault also through unknown-size masters lying between the child and the known-size ancestor) under all 8 tolerance subsets: not tolerated => exactly the items before the fault, then that class's error kind with the element's offset/id/size (another applicable class accepted); tolerated => that kind never occurs and the parse proceeds; and the same input parsed after allow_errors(E) followed by allow_errors(A), for every other subset E, equals the parse under allow_errors(A) alone. (b) every Σ string up to length n, every document and every single mutation x 8 subsets x limits {default, 5, none}: no raw tag unless unknown ids are tolerated, no error kind of a tolerated class, no size-limit error once the limit is removed, and for inputs starting at a root element the strict Ok items are a prefix of the Ok items under every other subset; header-only streams declaring > 4 GB are rejected with InvalidTagSize under every subset while the limit is untouched. Non-trivial: inputs on which two configurations disagree, and all injected faults.");
+    ctx.meta("rule", "cases: (input, tolerance subset, size limit). (a) every known-size document of T∘E with one injected fault of each class at every element (unknown id of the same length; specification id of the same length/kind not allowed there; size bumped one byte past the parent's end; declared size above the limit at root level; the oversize fault also through unknown-size masters lying between the child and the known-size ancestor) under all 8 tolerance subsets: not tolerated => exactly the items before the fault, then that class's error kind with the element's offset/id/size (another applicable class accepted); tolerated => that kind never occurs and the parse proceeds; and the same input parsed after allow_errors(E) followed by allow_errors(A), for every other subset E, equals the parse under allow_errors(A) alone; every oversize fault also behind a run of junk (1, 3, 17 bytes, at every earlier tag boundary where the next tag still fits) that is recovered from with try_recover(), capacities {default,16}, whole and 1-byte reads: the items in between, then OversizedChild at the shifted offset. (b) every Σ string up to length n, every document and every single mutation x 8 subsets x limits {default, 5, none}: no raw tag unless unknown ids are tolerated, no error kind of a tolerated class, no size-limit error once the limit is removed, and for inputs starting at a root element the strict Ok items are a prefix of the Ok items under every other subset; header-only streams declaring > 4 GB are rejected with InvalidTagSize under every subset while the limit is untouched. Non-trivial: inputs on which two configurations disagree, and all injected faults.");
     ctx.meta("bounds", &format!("Σ* length <= {}; documents <= {} elements; all single faults / mutations", n, ctx.tier.pick(4, 5)));
     ctx.meta("assumptions", "HierarchyError carries no position: its found_tag_id is compared instead");
-    for c in ["fault_Oversized_through_unknown_size_master", "fault_Id_strict", "fault_Id_tolerated", "fault_Hier_strict", "fault_Hier_tolerated", "fault_Oversized_strict", "fault_Oversized_tolerated", "fault_Limit", "prefix_comparisons", "inputs_on_which_configurations_disagree", "default_limit_rejections", "reconfigured_parses"] {
+    for c in ["fault_Oversized_through_unknown_size_master", "fault_Id_strict", "fault_Id_tolerated", "fault_Hier_strict", "fault_Hier_tolerated", "fault_Oversized_strict", "fault_Oversized_tolerated", "fault_Limit", "prefix_comparisons", "inputs_on_which_configurations_disagree", "default_limit_rejections", "reconfigured_parses", "fault_behind_a_recovery"] {
         ctx.expect_nonzero(c);
     }
     // (a)
@@ -326,6 +439,9 @@ pub fn run(ctx: &mut Ctx) {
                 continue;
             }
             check_fault(ctx, &rs, doc, &f, &want);
+            if f.class == Class::Oversized {
+                fault_behind_a_recovery(ctx, &rs, doc, &f);
+            }
         }
         // size limit at root level
         for lim in [5usize, 16, 1000] {
